@@ -366,6 +366,19 @@ fn sc_create_pool_classes(t: &mut Tracer, cfg: SysCfg, name: &str) {
     extra1.push(coin(1, "uusd"));
     w.create_pool(&b, &["uusdc", "uusdt"], &[6, 6], f0.clone(), CP, Some("zerofeeextra2"), &sorted(extra1));
     w.create_pool(&b, &["uusdc", "uusdt"], &[6, 6], f0.clone(), CP, Some("zerofee"), &ok3);
+    // a waived creation fee in the denom the token factory charges in, while the contract holds that denom as a reserve:
+    // the token-factory fee is still due in full
+    if let Some(tf) = w.s.cfg.tf_fee.first().cloned() {
+        w.create_pool(&b, &[tf.denom.as_str(), "uusd"], &[6, 6], f0.clone(), CP, Some("holdstf"), &ok3);
+        w.provide(&b, "o.holdstf", &sorted(vec![coin(50_000_000, tf.denom.clone()), coin(50_000_000, "uusd")]), None, None, None, None, None);
+        w.update_config(&o, None, Some(coin(0, tf.denom.clone())), &[], "creation fee -> 0 in the token-factory fee denom");
+        let due = w.creation_funds();
+        w.create_pool(&b, &["uusdc", "uweth"], &[6, 18], f0.clone(), CP, Some("nofunds"), &[]);
+        let mut short = due.clone();
+        short[0].amount -= Uint128::one();
+        w.create_pool(&b, &["uusdc", "uweth"], &[6, 18], f0.clone(), CP, Some("oneshort"), &short);
+        w.create_pool(&b, &["uusdc", "uweth"], &[6, 18], f0.clone(), CP, Some("paid"), &due);
+    }
     w.pages(4);
     w.pages(100);
 }
